@@ -212,6 +212,7 @@ func TestWorker(t *testing.T) {
 		bw.WriteByte('\n')
 		bw.Flush()
 	}
+	warmupBegin = func() { emit(RunResult{Kind: "begin", Prop: prop, Scen: os.Getenv("VERIF_SCEN"), Seed: 0xfeedface, Aborted: "warmup"}) }
 	if os.Getenv("VERIF_LIST") != "" {
 		var names []string
 		for _, s := range ScenariosFor(prop) {
@@ -279,9 +280,14 @@ func warmup(t *testing.T, sc *Scenario) {
 		return
 	}
 	kick()
+	if warmupBegin != nil {
+		warmupBegin()
+	}
 	runOne(t, sc, 0xfeedface, nil, false)
 	runtime.GC()
 }
+
+var warmupBegin func()
 
 // ---- real-time watchdog (outside every bubble) ----
 
